@@ -6,7 +6,10 @@
 // only executes and records what happened at the system boundary.
 //
 // case: {"id":n, "argv":[...], "stdin":"hex", "cycle":"hex"?, "cap":n?, "intr":[call idx...]?,
-//        "rfail":off?, "wfail":off?, "efail":off?, "wmax":n?, "log":bool?, "timeout_ms":n?}
+//        "rfail":off?, "wfail":off?, "efail":off?, "wmax":n?, "log":bool?, "timeout_ms":n?,
+//        "files":["hex",...]?   (written to temporary files; "@FILE<i>" in argv is replaced by the path, "@DIR" by the directory)
+//        "fifo":{"prefix":"hex","cycle":"hex","cap":n}?  (a named pipe fed by a thread; "@FIFO" in argv is replaced by its path;
+//                                                        obs.pulled = bytes the feeder handed over, obs.capped = cap reached)}
 // obs : {"id":n, "res":"ok"|"err"|"panic"|"cli", "msg":"...", "out":"hex", "err":"hex",
 //        "pulled":n, "reads":n, "opened":n, "eof":bool, "capped":bool, "ev":[...]}
 use clap::Parser;
@@ -56,6 +59,7 @@ struct Shared {
     err: Vec<u8>,
 }
 type Sh = Arc<Mutex<Shared>>;
+static CASE_NO: AtomicU64 = AtomicU64::new(0);
 
 struct InReader {
     prefix: Vec<u8>,
@@ -164,6 +168,104 @@ fn run_case(case: &Value) -> Value {
         .as_array()
         .map(|a| a.iter().map(|s| s.as_str().unwrap_or("").to_string()).collect())
         .unwrap_or_default();
+    let mut argv = argv;
+    let tmp = std::env::temp_dir().join(format!("jvh-{}-{}", std::process::id(), CASE_NO.fetch_add(1, Ordering::SeqCst)));
+    let mut tmp_used = false;
+    for a in argv.iter_mut() {
+        if *a == "@DIR" {
+            *a = tmp.to_string_lossy().to_string();
+        } else if *a == "@FIFO" {
+            *a = tmp.join("in.fifo").to_string_lossy().to_string();
+        } else if let Some(n) = a.strip_prefix("@FILE") {
+            *a = tmp.join(format!("f{}.json", n)).to_string_lossy().to_string();
+        }
+    }
+    let mut full = vec!["jawk".to_string()];
+    full.extend(argv.clone());
+    let cli = match Cli::try_parse_from(full) {
+        Ok(c) => c,
+        Err(e) => {
+            return json!({"id": id, "res": "cli", "msg": format!("{:?}", e.kind()), "out": "", "err": "",
+                          "pulled": 0, "reads": 0, "opened": 0, "eof": false, "capped": false});
+        }
+    };
+    if let Some(files) = case["files"].as_array() {
+        let _ = std::fs::create_dir_all(&tmp);
+        tmp_used = true;
+        for (i, f) in files.iter().enumerate() {
+            let path = tmp.join(format!("f{}.json", i));
+            let _ = std::fs::write(&path, unhex(f.as_str().unwrap_or("")));
+            let key = format!("@FILE{}", i);
+            for a in argv.iter_mut() {
+                if *a == key {
+                    *a = path.to_string_lossy().to_string();
+                }
+            }
+        }
+        for a in argv.iter_mut() {
+            if *a == "@DIR" {
+                *a = tmp.to_string_lossy().to_string();
+            }
+        }
+    }
+    let mut fifo: Option<(std::path::PathBuf, std::thread::JoinHandle<(usize, bool)>, Arc<AtomicBool>)> = None;
+    if case["fifo"].is_object() {
+        let _ = std::fs::create_dir_all(&tmp);
+        tmp_used = true;
+        let path = tmp.join("in.fifo");
+        let ok = std::process::Command::new("mkfifo").arg(&path).status().map(|s| s.success()).unwrap_or(false);
+        if ok {
+            for a in argv.iter_mut() {
+                if *a == "@FIFO" {
+                    *a = path.to_string_lossy().to_string();
+                }
+            }
+            let fprefix = unhex(case["fifo"]["prefix"].as_str().unwrap_or(""));
+            let fcycle = unhex(case["fifo"]["cycle"].as_str().unwrap_or(""));
+            let fcap = case["fifo"]["cap"].as_u64().unwrap_or(1 << 22) as usize;
+            let stop = Arc::new(AtomicBool::new(false));
+            let stop2 = stop.clone();
+            let p2 = path.clone();
+            let h = std::thread::spawn(move || {
+                // blocks until jawk (or the releasing open below) opens the pipe for reading
+                let mut f = match std::fs::OpenOptions::new().write(true).open(&p2) {
+                    Ok(f) => f,
+                    Err(_) => return (0usize, false),
+                };
+                let mut written = 0usize;
+                let mut capped = false;
+                let mut pos = 0usize;
+                loop {
+                    if stop2.load(Ordering::SeqCst) {
+                        break;
+                    }
+                    let chunk: Vec<u8> = if pos < fprefix.len() {
+                        fprefix[pos..(pos + 512).min(fprefix.len())].to_vec()
+                    } else if fcycle.is_empty() {
+                        break;
+                    } else if written >= fcap {
+                        capped = true;
+                        break;
+                    } else {
+                        let mut v = Vec::with_capacity(512);
+                        while v.len() < 512 {
+                            v.push(fcycle[(pos + v.len() - fprefix.len()) % fcycle.len()]);
+                        }
+                        v
+                    };
+                    match f.write(&chunk) {
+                        Ok(n) => {
+                            written += n;
+                            pos += n;
+                        }
+                        Err(_) => break,
+                    }
+                }
+                (written, capped)
+            });
+            fifo = Some((path, h, stop));
+        }
+    }
     let prefix = unhex(case["stdin"].as_str().unwrap_or(""));
     let cycle = unhex(case["cycle"].as_str().unwrap_or(""));
     let cap = case["cap"].as_u64().unwrap_or(1 << 20) as usize + prefix.len();
@@ -178,15 +280,6 @@ fn run_case(case: &Value) -> Value {
     let log = case["log"].as_bool().unwrap_or(false);
 
     let sh: Sh = Arc::new(Mutex::new(Shared::default()));
-    let mut full = vec!["jawk".to_string()];
-    full.extend(argv);
-    let cli = match Cli::try_parse_from(full) {
-        Ok(c) => c,
-        Err(e) => {
-            return json!({"id": id, "res": "cli", "msg": format!("{:?}", e.kind()), "out": "", "err": "",
-                          "pulled": 0, "reads": 0, "opened": 0, "eof": false, "capped": false});
-        }
-    };
     let out: Rc<RefCell<dyn Write + Send>> = Rc::new(RefCell::new(OutWriter {
         is_err: false,
         fail_at: wfail,
@@ -231,6 +324,20 @@ fn run_case(case: &Value) -> Value {
             ("panic", m)
         }
     };
+    let mut fifo_obs: Option<(usize, bool)> = None;
+    if let Some((path, h, stop)) = fifo {
+        stop.store(true, Ordering::SeqCst);
+        {
+            // release a feeder that is still blocked in open() because jawk never opened the pipe
+            use std::os::unix::fs::OpenOptionsExt;
+            let _r = std::fs::OpenOptions::new().read(true).custom_flags(0o4000).open(&path);
+            std::thread::sleep(std::time::Duration::from_millis(5));
+        }
+        fifo_obs = h.join().ok();
+    }
+    if tmp_used {
+        let _ = std::fs::remove_dir_all(&tmp);
+    }
     let s = match sh.lock() {
         Ok(g) => g,
         Err(p) => p.into_inner(),
@@ -239,6 +346,10 @@ fn run_case(case: &Value) -> Value {
         "pulled": s.pulled, "reads": s.reads, "opened": s.opened, "eof": s.eof, "capped": s.capped});
     if log {
         o["ev"] = Value::Array(s.ev.clone());
+    }
+    if let Some((written, capped)) = fifo_obs {
+        o["pulled"] = json!(written);
+        o["capped"] = json!(capped);
     }
     o
 }
